@@ -43,7 +43,7 @@ CHECKS = {
  "C18": dict(engine="e1", technique="exhaustive enumeration of all small inputs, every length x deterministic shape family (including a quicksort-killer adversary), and every comparator-call index as cancel moment, on the real par_quicksort",
    text="All key sequences over 4 keys up to length 9 and all permutations up to length 8; 23 shapes at every length 0..=2600, 4000..=4100 and larger lengths, including inputs produced by running the real sort against McIlroy's adversary (they drive it through break_patterns into heapsort; long ones run in a child process so a stack overflow is reported, not suffered); for three lengths x four shapes the cancel flag is raised at EVERY comparator call index; outputs are checked to be permutations, sorted when 'not cancelled' is reported, never 'cancelled' without the flag; the worker's total order gives the identical result for 1/2/4/8 threads.",
    note="Large lengths are exhaustive in length x shape, not over all inputs (exhaustive=false); multi-thread runs are repeated runs under rayon's own scheduling (labelled); per-routine entry counters show that every branch of the sort was executed."),
- "C08": dict(engine="e3", technique="loom: exhaustive exploration (DPOR, C11 memory model) of the real boxcar.rs under a linearizability/value oracle, 2-3 threads",
+ "C08": dict(engine="e3", technique="loom: exhaustive exploration (DPOR, C11 memory model) of the real boxcar.rs under a linearizability/value oracle, 2-3 threads; plus exhaustive enumeration of sequential push/extend histories (lying iterators) against a content model",
    text="The unmodified boxcar.rs is compiled into a loom harness (its atomics resolve to shims over loom's); for each body (push,push || push+announce || reader; prefill to a bucket boundary then push || extend || snapshot reader, also with an over-reporting iterator; two extends racing to allocate one bucket; capacities 0/1/40, 1-2 columns) loom enumerates every execution its memory model admits (quick: preemption bound 3 where stated, thorough: unbounded or bound 4) and each execution is judged: indices distinct and gap-free, every lookup None or a complete item of the owning push (value and all columns), completed pushes visible to every happens-after lookup forever at the same index, count monotone and >= completed pushes, snapshot iterator consecutive.",
    note="Bounded to 3 threads and 1-3 operations each; bodies with a preemption bound are exhaustive only up to that bound (reported); explored with payload tracking off so that the value oracle, not the race detector, decides."),
  "C09": dict(engine="e3", technique="loom: exhaustive exploration of the real boxcar.rs with happens-before tracking of every payload cell and of bucket initialisation",
